@@ -314,8 +314,13 @@ func sub(elems []any, nonTerminals []lex.Token, defaultField string) ([]any, []l
 		return elems, nonTerminals, false
 	}
 
+	inner, ok := elems[1].(*expr.Expression)
+	if !ok {
+		return elems, nonTerminals, false
+	}
+
 	// we consumed two terminals, the ( and )
-	return []any{elems[1]}, drop(nonTerminals, 2), true
+	return []any{inner}, drop(nonTerminals, 2), true
 }
 
 func must(elems []any, nonTerminals []lex.Token, defaultField string) ([]any, []lex.Token, bool) {
